@@ -97,7 +97,9 @@ function compileTexts(texts, scoped) {
     part.forEach((t, k) => {
       const q = attrQuote(t)
       if (q === null) { layout.push(null); src += '\n'; return }
-      layout.push({ job: jobs.length, name: 't' + k })
+      // (a literal may contain a line break: diagnostics are attributed by the lines the template occupies)
+      const firstLine = src.split('\n').length - 1
+      layout.push({ job: jobs.length, name: 't' + k, firstLine, lastLine: firstLine + t.split('\n').length - 1 })
       // scoped: the names a, b, c are the items of three nested loops instead of data fields
       src += scoped
         ? `<template name="t${k}"><block wx:for="{{la}}" wx:for-item="a"><block wx:for="{{lb}}" wx:for-item="b"><block wx:for="{{lc}}" wx:for-item="c"><a v=${q}{{ ${t} }}${q}/></block></block></block></template>\n`
@@ -121,8 +123,7 @@ function compileTexts(texts, scoped) {
     if (g.panic) return { panic: g.panic }
     if (g.loadErr) return { loadErr: g.loadErr }
     // diagnostics are per file: find whether this template's line has one
-    const line = i % PER_FILE
-    const mine = g.bad.filter((d) => d.start[0] === line)
+    const mine = g.bad.filter((d) => d.start[0] >= l.firstLine && d.start[0] <= l.lastLine)
     if (mine.length) return { rejected: mine.map((d) => d.kind) }
     if (g.bad.length && !g.G) return { rejected: ['file rejected'] }
     const proc = g.G.f(l.name)
